@@ -22,7 +22,6 @@ package snapstate_test
 import (
 	"encoding/json"
 	"fmt"
-	"os"
 	"sort"
 	"strings"
 	"testing"
@@ -532,9 +531,6 @@ func c10Run(c *check.C, cs c10Case) (verifkit.Outcome, error) {
 
 	// resolve the final request once: every attempt issues the same concrete request
 	chg, req, err := c10Apply(w, cs.Final, true)
-	if os.Getenv("VERIF_DEBUG") != "" {
-		fmt.Printf("DEBUG history refused: %v\nDEBUG final %s: %v\n", b.reasons, cs.Final, err)
-	}
 	if err != nil {
 		o.Skip = true
 		return o, nil
